@@ -15,6 +15,10 @@
  *   T <s> <kind> <term>*                        the same theory clause as literal terms (disjunction)
  *        kind: conflict reason split ded0 conf0
  *   F <s> <n> { <coeff> <pol> <atom> }*         Farkas certificate of an arithmetic conflict
+ *
+ * stopPoint(where): logical moments of a check-sat (1 search loop head, 2 theory check, 3 preprocessing of a frame,
+ * 4 model construction, 5 variable elimination step).  A harness may install a callback to learn that the solving
+ * thread has reached a moment; the callback is read with relaxed ordering so that it adds no synchronisation.
  */
 #ifndef OPENSMT_VERIFHOOKS_H
 #define OPENSMT_VERIFHOOKS_H
@@ -59,6 +63,13 @@ inline thread_local int derivedDepth = 0;
 
 inline int newSolverId() {
     return ++solverCounter;
+}
+
+inline std::atomic<void (*)(int)> stopPointCallback{nullptr};
+
+inline void stopPoint(int where) {
+    auto callback = stopPointCallback.load(std::memory_order_relaxed);
+    if (callback != nullptr) { callback(where); }
 }
 
 struct Scope {
